@@ -10,4 +10,4 @@ Extraction "model.ml"
   Hpwl.pin_x_offset Hpwl.pin_y_offset Hpwl.placed_width Hpwl.placed_height Hpwl.def_transform Hpwl.hpwl
   Hpwl.circuit_topology Hpwl.incr_trace Hpwl.cell_net_ids
   Orient.cell_orientation_in_row Orient.opposite_row_orientation Orient.is_turn Circuit.prescribed Circuit.legalb Circuit.orient_okb Circuit.trivially_feasible Circuit.free_rows Legalizer.legalize_circuit Legalizer.circuit_after
-  Moves.apply_mop Moves.step_mop Optimiser.otrace.
+  Moves.apply_mop Moves.step_mop Moves.shift_ok Moves.apply_shift Optimiser.otrace.
